@@ -1,15 +1,97 @@
 """C12 — write-through keeps memory current; write-back never loses a written value (BFS, state invariant)."""
 from __future__ import annotations
 
-from vf.checks import cachebfs, cachecfg
+import itertools
+import time
+
+from vf.adapt import rv
+from vf.checks import c03, cachebfs, cachecfg
 from vf.checks.cachebfs import Cfg
+from vf.engine.core import Partial, pmap
+from vf.ref import rv32
 
 ID = "C12"
 LEVEL = "model_checking"
 WANT = ("coherence",)
 
 
+class ProgCfg:
+    """What World.check_coherence needs to know about a program run: the touched words and the write policy."""
+
+    def __init__(self, kind, bb, words):
+        self.kind = kind
+        blk = 4 << bb
+        self.words = sorted(words)
+        self.block_words = sorted({(a & ~(blk - 1)) + 4 * i for a in self.words for i in range(blk // 4)})
+
+
+TOUCHED = sorted({c03.BASE + o for o in (0, 4, 64, 68, 128, 192)} | {0xFFFFFFFC})
+
+
+def program_case(prog, ci, mode):
+    """The access history a PROGRAM generates (stores of the pipeline's memory stage included): the coherence invariant after
+    every single-cycle step and at the end of a five-stage run, with the golden model's memory as the logical contents."""
+    ib, bb, ways, kind, policy = c03.PROG_CACHES[ci]
+    pd = {4 * i: ins for i, ins in enumerate(prog)}
+    r, m = rv.ref_state(c03.PROG_REGS, c03.PROG_WORDS)
+    images = {0: dict(m.image())}
+    exp = rv32.run_seq(pd, r, m, 40, per_step=lambda n, pc, regs, mem, out, ex: images.__setitem__(n, dict(mem.image())))
+    if exp.err is not None:
+        return None, exp
+    sim = rv.make_sim(mode, prog, c03.PROG_REGS, c03.PROG_WORDS, dcache=rv.cache_opts(ib, bb, ways, kind, policy, 1))
+    w = cachebfs.World.__new__(cachebfs.World)
+    w.cfg = ProgCfg(kind, bb, TOUCHED)
+    w.sim, w.mem = sim, sim.state.memory
+    n = 0
+    try:
+        while not sim.is_done() and n < 400:
+            sim.step()
+            n += 1
+            if mode == rv.SINGLE:
+                w.flat = images.get(n, images[max(images)])
+                checks = []
+                w.check_coherence(checks)
+                if checks:
+                    return f"after step {n}: {checks[0][0]}: {checks[0][1]}", exp
+    except Exception as e:  # noqa
+        return f"run failed: {type(e).__name__}: {e}", exp
+    w.flat = images[max(images)]
+    checks = []
+    w.check_coherence(checks)
+    if checks:
+        return f"after the run ({n} steps): {checks[0][0]}: {checks[0][1]}", exp
+    return None, exp
+
+
+def prog_shard(shard):
+    length, first = shard
+    A = c03.mem_alphabet()
+    p = Partial()
+    for tail in itertools.product(range(len(A)), repeat=length - 1):
+        idx = (first,) + tail
+        prog = [A[i] for i in idx]
+        for ci in range(len(c03.PROG_CACHES)):
+            for mode in (rv.SINGLE, rv.FIVE):
+                d, exp = program_case(prog, ci, mode)
+                p.evaluations += 1
+                if exp.err is not None:
+                    p.counters["skipped-fault"] += 1
+                    continue
+                if exp.stores:
+                    p.nontrivial += 1
+                    p.counters["program-with-stores-under-a-cache"] += 1
+                if d:
+                    p.violation(dict(oracle="program-coherence", kind=c03.PROG_CACHES[ci][3], mode=mode), dict(kind="cached-program", prog=[list(i) for i in prog], ci=ci, mode=mode),
+                                f"[{rv.prog_text(prog)}] {'/'.join(map(str, c03.PROG_CACHES[ci]))} {mode}: {d}", size=(length, idx, ci))
+    if first == 0:
+        p.sample(dict(kind="cached-program", prog=[list(A[(2 * i) % len(A)]) for i in range(length)], ci=0, mode=rv.FIVE))
+    return p
+
+
 def replay(case):
+    if case.get("kind") == "cached-program":
+        d, _exp = program_case([tuple(i) for i in case["prog"]], case["ci"], case["mode"])
+        return [(dict(oracle="program-coherence", kind=c03.PROG_CACHES[case["ci"]][3], mode=case["mode"]), d)] if d else []
     return cachebfs.replay(case)
 
 
@@ -54,3 +136,10 @@ def run(ctx):
             cachebfs.explore(ctx, Cfg(*g, kind, policy, 0, "control", True, "base", True), WANT, 60)
     ctx.require("cache-eviction", "cache-fill", "rejected")
     cachebfs.deep_paths(ctx, WANT)
+    # the histories programs generate, in both pipeline modes (the five-stage memory stage has its own store path)
+    for L in range(1, (3 if ctx.quick else 4) + 1):
+        t0 = time.time()
+        part = pmap(prog_shard, [(L, f) for f in range(len(c03.mem_alphabet()))])
+        ctx.space(f"cached-programs-len{L}", part, t0, length=L, cache_configs=len(c03.PROG_CACHES), modes=2,
+                  note="coherence invariant after every single-cycle step and at the end of the five-stage run; logical contents = golden model")
+    ctx.require("program-with-stores-under-a-cache")
